@@ -198,10 +198,38 @@ func (fc *fnCtx) classAssume(v *val, t types.Type, guard string) {
 		return
 	}
 	switch v.k {
+	case kOpaque:
+		// a map reference designates a map object of exactly that map type (maps are never parts of other objects)
+		mt, ok := t.Underlying().(*types.Map)
+		if !ok || len(v.t) == 0 || guard == "#skip" {
+			return
+		}
+		id := g.w.classes.id("MAP:" + types.TypeString(mt, nil))
+		g.declFun("CLS", "(Int) Int")
+		g.declFun("HASBYTES", "(Int) Bool")
+		if key := fmt.Sprintf("hasbytes:%d", id); !g.specDefs[key] {
+			g.specDefs[key] = true
+			g.assume(fmt.Sprintf("(not (HASBYTES %d))", id))
+		}
+		g.declFun("ISMAP", "(Int) Bool")
+		f := fmt.Sprintf("(or (= %s 0) (and (= (CLS %s) %d) (ISMAP (CLS %s))))", v.t[0], v.t[0], id, v.t[0])
+		if guard != "" && guard != "true" {
+			f = fmt.Sprintf("(=> %s %s)", guard, f)
+		}
+		g.assume(f)
 	case kPtr, kSlice:
 		et := elemTypeOfRef(t)
 		if et == nil {
 			return
+		}
+		if g.ufDecl["ISMAP"] && guard != "#skip" {
+			// pointers and slices never designate map objects (whatever their element type)
+			f := fmt.Sprintf("(or (= %s 0) (not (ISMAP (CLS %s))))", v.t[0], v.t[0])
+			if guard != "" && guard != "true" {
+				f = fmt.Sprintf("(=> %s %s)", guard, f)
+			}
+			g.declFun("CLS", "(Int) Int")
+			g.assume(f)
 		}
 		if _, isIface := et.Underlying().(*types.Interface); isIface && false {
 			return
